@@ -20,6 +20,7 @@ def recorder() -> P.Recorder:
     global _rec
     if _rec is None:
         _rec = P.Recorder()
+        P.attach_l0(_rec)
         P.attach_l2(_rec, ["simplify"])
         P.attach_l3(_rec, ioc=["__init__", "simplify"], pic=[])
     return _rec
@@ -120,7 +121,12 @@ def judge_simplify(ctx: Ctx, ev: P.Event, case: Any, nested: bool) -> None:  # n
         if r == "unknown":
             ctx.inconclusive_case()
         elif r == "unsat":
-            ctx.violation("redundant-term-kept", "simplify(%s | %s) returned %s: the term %s is implied with margin by "
+            # mechanism: did the solver give up on one of the LPs of this call (status != 0 on its last attempt)?
+            lps = [e for e in ev.walk() if e.op == "linprog" and e.out == "ret"]
+            bad = sorted({e.res["LP"]["status"] for e in lps if isinstance(e.res, dict) and e.res.get("LP", {}).get(
+                "status") not in (0, None)})
+            mech = "redundant-term-kept" + (":solver-status-%s" % "-".join(str(x) for x in bad) if bad else "")
+            ctx.violation(mech, "simplify(%s | %s) returned %s: the term %s is implied with margin by "
                           "the others and the context" % (X.fmt_list(src), X.fmt_list(cx), X.fmt_list(res),
                                                           X.fmt_term(t)), case)
             break
@@ -335,6 +341,7 @@ CORE = [
                {"c": {"a": 0.02}, "k": 340.4}],
      "ctx": [{"c": {"e": -0.0101, "a": -250000.0}, "k": 500000.10985999997}]},
     {"kind": "list", "family": "core", "style": "wide", "terms": [{"c": {"a": -948.8, "c": -1000000.0, "e": -0.0008812}, "k": -2000948.8025435999}, {"c": {"b": -3.0, "e": 1000000.0, "a": 1000000.0}, "k": 3999992.234}, {"c": {"a": -1.234, "e": 1000.0, "d": 250000.0}, "k": -496966.304}], "ctx": [{"c": {"c": -78.9}, "k": 1000.0}, {"c": {"d": 123400.0, "c": -9.999}, "k": -370199.5}, {"c": {"a": 1.234, "c": 0.5, "e": -0.02116}, "k": -3.24432}]},
+    {"kind": "list", "family": "core", "style": "wide", "terms": [{"c": {"b": -0.0001, "a": 1000.0}, "k": 0.9997}, {"c": {"a": -1.234}, "k": 1.234}, {"c": {"a": 0.0006429}, "k": 0.001}, {"c": {"b": -9.99995e-05}, "k": 12.4997}, {"c": {"b": 10090.0, "a": 7.708}, "k": 30270.0001}], "ctx": [{"c": {"b": -0.0001}, "k": 12.4997}]},
     {"kind": "list", "family": "core", "style": "int", "terms": [{"c": {}, "k": 0.0}, {"c": {}, "k": 1.0},
                                                                  {"c": {}, "k": 2.5}], "ctx": [{"c": {}, "k": 1.0}]},
     {"kind": "list", "family": "core", "style": "float",
